@@ -17,13 +17,14 @@ import threading
 import vlib
 from vlib import prints, write_ndjson, read_ndjson, MachineryError
 
-KINDS = '"clean", "bare", "tmpl", "regexp", "agg", "broken", "both"'
+KINDS = '"clean", "bare", "tmpl", "regexp", "agg", "broken", "both", "ovr"'
 INPUT_CFG = """SPECIFICATION Spec
 CONSTANTS
   MaxRules = %d
   Kinds = {%s}
   Cfgs = {"none", "same", "mixed"}
   Twos = {FALSE, TRUE}
+  Grps = {FALSE, TRUE}
 INVARIANTS EmitCase
 CHECK_DEADLOCK FALSE
 """
@@ -73,6 +74,8 @@ def sig_of(v):
     what = v["what"]
     if isinstance(what, dict) and what.get("race"):
         return "C11:race"
+    if isinstance(what, dict) and what.get("exec"):
+        return "C11:check-execution-order:cfg=%s:grp=%s" % (v["cfg"], v.get("grp"))
     if not kinds:
         return "C11:order:unexplained:cfg=%s:rules=%s" % (v["cfg"], ",".join(sorted(set(v["rules"]))))
     return "C11:order:" + "+".join(kinds)
@@ -124,7 +127,7 @@ def judge(ctx, recs, shards, tag):
 
 def gen_orders(ctx, shapes, thorough, nw):
     """Arrival orders per shape from the channel machine of Scan.tla."""
-    small = sorted(s for s in shapes if sum(s) >= 2 and len(s) >= 2 and n_interleavings(s) <= (720 if thorough else 130))
+    small = sorted(s for s in shapes if sum(s) >= 2 and len(s) >= 2 and n_interleavings(s) <= (720 if thorough else 60))
     big = sorted(s for s in shapes if sum(s) >= 2 and len(s) >= 2 and s not in small)
     orders = {s: [] for s in shapes}
     stats = []
@@ -144,7 +147,7 @@ def gen_orders(ctx, shapes, thorough, nw):
     if big:
         text = GEN_MOD % dict(name="ScanGenB", shapes=", ".join(tla_seq(s) for s in big),
                               wexpr="TRUE THEN W ELSE W")
-        per_worker = max(1, ((60 if thorough else 24) * len(big)) // nw + 1)
+        per_worker = max(1, ((60 if thorough else 12) * len(big)) // nw + 1)
         g = ctx.tlc("ScanGenB", "c11_genb.cfg", files={"ScanGenB.tla": text, "c11_genb.cfg": GEN_CFG % "2, 3, 8"},
                     workers=nw, simulate=per_worker, depth=400, deadlock=False, timeout=3000, tag="gen-orders-simulated")
         stats.append(g)
@@ -173,7 +176,7 @@ def run(ctx, cases_override=None):
             mcs.append(m)
             if m["invariant_violated"] or m["rc"] != 0:
                 leads.append("%s:%s" % (tag, m["invariant_violated"]))
-        m = ctx.tlc("Scan", "c11_mcc.cfg", files={"c11_mcc.cfg": MCC_CFG % (3, 4 if th else 3, "Inv_C11")}, workers=nw,
+        m = ctx.tlc("Scan", "c11_mcc.cfg", files={"c11_mcc.cfg": MCC_CFG % (3, 4 if th else 3, "Inv_C11 Inv_LazyAgrees")}, workers=nw,
                     timeout=3000, allow_violation=True, tag="mc-bags")
         mcs.append(m)
         if m["invariant_violated"]:
@@ -200,7 +203,7 @@ def run(ctx, cases_override=None):
     else:
         inputs = [dict(c) for c in cases_override]
     # ---------------------------------------------------------------- EXEC: shapes
-    ipath = write_ndjson(ctx.path("c11_inputs.ndjson"), [{k: c[k] for k in ("cfg", "rules", "two")} for c in inputs])
+    ipath = write_ndjson(ctx.path("c11_inputs.ndjson"), [{k: c[k] for k in ("cfg", "rules", "two", "grp")} for c in inputs])
     spath = ctx.path("c11_shapes.ndjson")
     ctx.vh("exec-c11-shapes", ipath, spath, timeout=3000)
     shapes_of = [tuple(r["shape"]) for r in read_ndjson(spath)]
@@ -213,7 +216,7 @@ def run(ctx, cases_override=None):
     else:
         small, big = [], []
     # ---------------------------------------------------------------- EXEC: replay + JUDGE
-    rpath = write_ndjson(ctx.path("c11_replay.ndjson"), [{k: c[k] for k in ("cfg", "rules", "two", "orders")} for c in inputs])
+    rpath = write_ndjson(ctx.path("c11_replay.ndjson"), [{k: c[k] for k in ("cfg", "rules", "two", "grp", "orders")} for c in inputs])
     tpath = ctx.path("c11_trace.ndjson")
     ctx.vh("exec-c11-replay", rpath, tpath, timeout=3000)
     trace = read_ndjson(tpath)
@@ -222,9 +225,14 @@ def run(ctx, cases_override=None):
     viols = []
     for fid, v in viol:
         c = inputs[fid - 1]
-        viols.append({"sig": sig_of(v), "what": "input cfg=%s rules=%s two=%s: arrival order %s renders differently from the --workers 1 order (outputs %s differ); unseparated pairs: %s" % (
-            v["cfg"], v["rules"], v["two"], v["what"].get("order"), v["what"].get("outputs"), v["kinds"]),
-            "case": {"cfg": c["cfg"], "rules": c["rules"], "two": c["two"], "orders": [o for k, o in enumerate(c["orders"]) if k + 1 == v["what"].get("oid")]},
+        if v["what"].get("exec"):
+            msg = "input cfg=%s rules=%s two=%s grp=%s: executing the check jobs in %s order changes what the jobs report" % (
+                v["cfg"], v["rules"], v["two"], v.get("grp"), v["what"]["exec"])
+        else:
+            msg = "input cfg=%s rules=%s two=%s grp=%s: arrival order %s renders differently from the --workers 1 order (outputs %s differ); unseparated pairs: %s" % (
+                v["cfg"], v["rules"], v["two"], v.get("grp"), v["what"].get("order"), v["what"].get("outputs"), v["kinds"])
+        viols.append({"sig": sig_of(v), "what": msg,
+            "case": {"cfg": c["cfg"], "rules": c["rules"], "two": c["two"], "grp": c["grp"], "orders": [o for k, o in enumerate(c["orders"]) if k + 1 == v["what"].get("oid")]},
             "detail": v})
     drifts = ["input %s: %s" % (fid, json.dumps(d)[:400]) for fid, d in drift]
     # ---------------------------------------------------------------- EXEC: the real binary
@@ -254,7 +262,7 @@ def run(ctx, cases_override=None):
                 combos += [[2, 2, ctx.seed * 7 + 1], [3, 4, ctx.seed * 7 + 2], [2, 16, ctx.seed * 7 + 3], [64, 16, ctx.seed * 7 + 4]]
             else:
                 combos = [[2, 2, ctx.seed * 100 + n + 1], [3, 4, ctx.seed * 100 + n + 11], [10, 16, 0], [64, 16, ctx.seed * 100 + n + 21], [2, 1, ctx.seed * 100 + n + 31]]
-            bin_inputs.append({"cfg": inputs[k]["cfg"], "rules": inputs[k]["rules"], "two": inputs[k]["two"], "combos": combos})
+            bin_inputs.append({"cfg": inputs[k]["cfg"], "rules": inputs[k]["rules"], "two": inputs[k]["two"], "grp": inputs[k]["grp"], "combos": combos})
         bpath = write_ndjson(ctx.path("c11_bin_inputs.ndjson"), bin_inputs)
         btrace = ctx.path("c11_bin_trace.ndjson")
         ctx.vh("exec-c11-bin", bpath, btrace, pint, timeout=3000)
@@ -291,7 +299,7 @@ def run(ctx, cases_override=None):
         "rule": "inputs: every sequence of <=%d rule kinds (7 kinds) x 3 configurations x one/two files (TLC, exhaustive) plus simulated longer ones; "
                 "non-trivial = inputs whose real pipeline run has >=2 jobs with reports; per input every reachable arrival order when the shape has "
                 "<=%d interleavings (TLC, exhaustive over the channel machine with as many workers as jobs), else simulated schedules with 2/3/8 workers; "
-                "evaluations = arrival orders replayed into the real code + runs of the real -race binary" % (3 if th else 2, 720 if th else 130),
+                "evaluations = arrival orders replayed into the real code + runs of the real -race binary" % (3 if th else 2, 720 if th else 60),
         "exhaustive": False,
         "inputs": len(inputs), "inputs_with_cross_job_ties": len(kinds_of),
         "shapes": len(set(shapes_of)), "shapes_exhaustive": len(small), "shapes_simulated": len(big),
